@@ -42,3 +42,10 @@ Example C07_rule_nonvacuous :
   counter_ok 0 0 = true /\ counter_ok 5 6 = true /\ counter_ok 5 5 = false /\ counter_ok 5 0 = false
   /\ counter_ok 4294967294 4294967295 = true /\ counter_ok 4294967295 4294967295 = false.
 Proof. vm_compute. repeat split. Qed.
+
+(* non-vacuity on a real assertion: accepted at stored counter 76 with counter 77, refused once 77 is stored *)
+From PW Require Import Proofs.Examples.
+Example C07_nonvacuous :
+  verify_auth ex_oracles ex_policy (InRec ex_cred) = Ok ex_result /\ va_new_count ex_result = 77 /\
+  is_ok (verify_auth ex_oracles (with_count ex_policy 77) (InRec ex_cred)) = false.
+Proof. split; [exact auth_example_accepted|split; [reflexivity|exact auth_example_replay_rejected]]. Qed.
